@@ -1065,6 +1065,13 @@ func (nbs *NomsBlockStore) addChunk(ctx context.Context, ch chunks.Chunk, getAdd
 			nbs.memtable = newMemTable(nbs.memtableSz)
 			addChunkRes = nbs.memtable.addChunk(ch.Hash(), ch.Data())
 		}
+		if addChunkRes == chunkAdded {
+			// Register the chunk's child refs together with the chunk. If we
+			// block on the keeper below and the GC ends without swapping
+			// tables, the retry finds the chunk already present and must not
+			// lose its pending ref check.
+			nbs.memtable.addGetChildRefs(getAddrs(ch))
+		}
 		if addChunkRes == chunkAdded || addChunkRes == chunkExists {
 			if nbs.keeperFunc != nil && nbs.keeperFunc(ch.Hash()) {
 				retry = true
@@ -1073,9 +1080,6 @@ func (nbs *NomsBlockStore) addChunk(ctx context.Context, ch chunks.Chunk, getAdd
 				}
 				continue
 			}
-		}
-		if addChunkRes == chunkAdded {
-			nbs.memtable.addGetChildRefs(getAddrs(ch))
 		}
 	}
 
